@@ -101,3 +101,14 @@ Definition py_init16 : template16 := match py_init16_opt with Some t => t | None
 Definition gen_init (t : table) : list line :=
   [(4, ADef "__init__"); (8, AEntryStartup (getfirststate t)); (8, ASetState (getfirststate t))].
 Definition py_init_ref (tt : list EngineSM.row) (structs protos msgs : list string) : string := ref16_rows tt structs protos msgs py_init16.
+
+(* ---------------------------------------------------------------- the WHOLE shipped file
+   The signature strings of the events (get_event_signature without / with defaults, printed by LanguagePython) are an ORACLE: a parameter. *)
+Definition py_file16_opt : option template16 := option_map snd (shipped16 dict0 py_file).
+Definition py_file16 : template16 := match py_file16_opt with Some t => t | None => [] end.
+Definition py_elements (tt : list EngineSM.row) (structs protos msgs : list string) (sigs : list (string * (string * string))) (a : list (string * string)) : elements :=
+  with_user a (with_evsigs sigs (elements_of (table_of tt) structs protos msgs)).
+Definition py_file_ref (tt : list EngineSM.row) (structs protos msgs : list string) (sigs : list (string * (string * string))) (a : list (string * string)) : string :=
+  ref16 (py_elements tt structs protos msgs sigs a) py_file16.
+Definition py_file_wf (tt : list EngineSM.row) (structs protos msgs : list string) (sigs : list (string * (string * string))) (a : list (string * string)) : bool :=
+  match py_file16_opt with Some t => wf_elements16 t (py_elements tt structs protos msgs sigs a) | None => false end.
